@@ -64,6 +64,12 @@ def plain_values(tier):
     for k in KEYS:
         out += [{k: 1}, {k: None, "a": "x"}, {"a": {k: [1]}}, [{k: "a"}, {k: "a", "z": 0}]]
     out.append({k: i for i, k in enumerate(KEYS) if k is not True and k != 0 or k is None})
+    # bigger than any default bound of the generator: 17, 40 and 130 members, long text and bytes
+    out += [[0] * 17, list(range(40)), ["a", None] * 65, {"k%d" % i: i for i in range(17)},
+            {"rows": [{"id": i, "tags": ["t"] * 3} for i in range(20)]}, "x" * 300, b"\x00\xff" * 150,
+            2 ** 200, -(10 ** 18) - 1, 10 ** 15 + 1]
+    # floats at the very bottom of the range (subnormals, negative zero)
+    out += [5e-324, -5e-324, 1e-310, -0.0, [0.0, -0.0], {"a": 1e-310, "b": 0.0}, 2.2250738585072014e-308]
     # text that spells a marker: the strings "..." / "Nil" as key, as value, as both
     out += ["...", {"...": "..."}, {"a": 1, "...": "..."}, [{"...": "..."}, "..."], {"...": 1}, {"a": "..."},
             {"Nil": "Nil"}, {"optional('a')": 1}]
